@@ -28,7 +28,10 @@ impl<const T: JoinType> MergeJoinExecutor<T> {
         loop {
             match (&left_group, &right_group) {
                 // cross join if left key == right key
-                (Some((lkey, lchunk)), Some((rkey, rchunk))) if lkey == rkey => {
+                // (a key containing NULL never equals anything, not even another NULL)
+                (Some((lkey, lchunk)), Some((rkey, rchunk)))
+                    if lkey == rkey && !lkey.iter().any(|k| k.is_null()) =>
+                {
                     for left_row in lchunk {
                         for right_row in rchunk {
                             let values = left_row.iter().chain(right_row.iter()).cloned();
@@ -42,7 +45,8 @@ impl<const T: JoinType> MergeJoinExecutor<T> {
                 }
                 // left join if left key < right key or right is finished
                 (Some((lkey, lchunk)), _)
-                    if right_group.as_ref().is_none_or(|(rkey, _)| lkey < rkey) =>
+                    // (`lkey == rkey` only reaches here for NULL keys: both groups are unmatched)
+                    if right_group.as_ref().is_none_or(|(rkey, _)| lkey <= rkey) =>
                 {
                     if T == JoinType::LeftOuter || T == JoinType::FullOuter {
                         for left_row in lchunk {
